@@ -452,6 +452,10 @@ def oracle(case, run=None):
                     fails.append(("roundtrip-exact", api, j, {"row": i, "x": repr(x), "back": repr(y)}))
             if not member_py(s, y):
                 fails.append(("member", api, j, {"row": i, "x": repr(x), "back": repr(y)}))
+        if all(member_py(s, y) for s, y in zip(specs, back)):
+            c = Out(lambda: list(back) in r["space"] and all(y in dm for y, dm in zip(back, r["space"].dimensions)))
+            if c.exc is not None or not c.val:
+                fails.append(("member-contains", "Space.__contains__", None, {"row": i, "back": repr(back), "result": repr(c.exc or c.val)}))
     return fails
 
 
@@ -640,6 +644,14 @@ def _space_requests(case, run):
             inv = run["inv"]
             if inv is not None and inv.exc is None:
                 reqs.append(("mem", {"op": "transform", "dims": wd, "X": [[tag(v) for v in r] for r in inv.val], "L": l_table(specs, [])}))
+                tn = run.get("tn")
+                if tn is not None and tn.exc is None and all(math.isfinite(v) for b in tn.val[1] for v in b) \
+                        and all(len(r) == len(specs) for r in X):
+                    # the verified checkers (C09_checker_shape/_bounds/_roundtrip) on the REAL outputs
+                    T = [[rat(float(rt_tolerance(s, x))) if s["k"] == "real" else "0/1" for s, x in zip(specs, r)] for r in X]
+                    reqs.append(("check", {"op": "check", "dims": wd, "X": [[tag(v) for v in r] for r in X], "T": T,
+                                           "Xt": rows_of_matrix(Xt), "Xr": [[tag(v) for v in r] for r in inv.val],
+                                           "bounds": [[rat(a), rat(b)] for a, b in tn.val[1]]}))
     return reqs
 
 
@@ -673,6 +685,20 @@ def l2_space(ck, d, case, run, fails):
                 ck.mismatch(case, {"what": "memRow (Lean) vs membership stated in Python", "lean": rep["mem"], "py": py})
             if not all(rep["mem"]) and not any(f[0] == "member" for f in fails):
                 extra.append(("member", "Space.inverse_transform", None, {"lean_memRow": rep["mem"]}))
+        elif name == "check":
+            ck.count("lean-checkers")
+            py = {"shape": not any(f[0] == "shape" for f in fails),
+                  "roundtrip": not any(f[0] in ("rows", "roundtrip-exact", "roundtrip-tol", "member") for f in fails)}
+            py["bounds"] = py["shape"] and not any(f[0] == "bounds" for f in fails)
+            for clause in ("shape", "bounds", "roundtrip"):
+                if clause == "bounds" and not py["shape"]:
+                    continue
+                if rep[clause] != py[clause]:
+                    ck.mismatch(case, {"what": "verified checker (Lean) and the Python statement of the clause disagree", "clause": clause,
+                                       "lean": rep[clause], "python": py[clause]})
+                    if not rep[clause]:
+                        extra.append((clause if clause != "roundtrip" else "roundtrip-exact", "Space.transform" if clause != "roundtrip" else "Space.inverse_transform",
+                                      None, {"lean_checker": clause}))
     return extra
 
 
@@ -997,6 +1023,180 @@ def run_history_case(ck, d, case):
         report_history(ck, d, case, failures)
 
 
+# --------------------------------------------------------------------------- spaces built the other ways
+
+def spec_of_dim(dm):
+    """a real skopt dimension -> spec dict"""
+    from deephyper.skopt.space import Integer, Real
+
+    if isinstance(dm, Real):
+        s = {"k": "real", "lo": float(dm.low), "hi": float(dm.high), "prior": dm.prior, "tr": dm.transform_}
+    elif isinstance(dm, Integer):
+        s = {"k": "int", "lo": int(dm.low), "hi": int(dm.high), "prior": dm.prior, "tr": dm.transform_}
+    else:
+        return {"k": "cat", "cats": [untag(tag(c)) for c in dm.categories], "tr": dm.transform_}
+    if dm.base != 10:
+        s["base"] = dm.base
+    return s
+
+
+def same_dimension(dm, s):
+    """does the real dimension object have the kind / bounds / prior / base / transformer of spec s?"""
+    from deephyper.skopt.space import Categorical, Integer, Real
+
+    if s["k"] == "cat":
+        return isinstance(dm, Categorical) and [tag(c) for c in dm.categories] == [tag(c) for c in s["cats"]] and dm.transform_ == s["tr"]
+    cls = Real if s["k"] == "real" else Integer
+    return (type(dm) is cls and tag(dm.low) == tag(s["lo"]) and tag(dm.high) == tag(s["hi"]) and dm.prior == s["prior"]
+            and dm.base == s.get("base", 10) and dm.transform_ == s["tr"])
+
+
+def run_built_space(ck, d, kind, space, specs, X, case_extra):
+    """checks of an already built Space object (fresh-object oracles + model + verified checkers)"""
+    state = {"dims": specs, "X": X}
+    run = real_space_run(state, space=space)
+    fails = oracle(state, run)
+    ck.case({"kind": kind, **state, **case_extra})
+    ck.count("built:" + kind)
+    for s, dm in zip(specs, space.dimensions):
+        if not same_dimension(dm, s):
+            ck.mismatch({"kind": kind, **case_extra}, {"what": kind + ": the dimension built is not the one declared", "declared": s, "built": repr(dm)})
+            return
+    # the plain accessors, stated directly
+    want_bounds = [tuple(s["cats"]) if s["k"] == "cat" else (s["lo"], s["hi"]) for s in specs]
+    acc = Out(lambda: ([tuple(b) for b in space.bounds], space.n_dims, [dm.is_constant for dm in space], space.is_real,
+                       space.is_categorical, len(space.dimension_names)))
+    if acc.exc is not None or [tuple(tag(v) for v in b) for b in acc.val[0]] != [tuple(tag(v) for v in b) for b in want_bounds] \
+            or acc.val[1] != len(specs) or acc.val[2] != [s["k"] == "cat" and len(s["cats"]) <= 1 for s in specs] \
+            or acc.val[3] != all(s["k"] == "real" for s in specs) or acc.val[4] != all(s["k"] == "cat" for s in specs):
+        ck.mismatch({"kind": kind, **case_extra}, {"what": "Space.bounds / n_dims / is_constant / is_real / is_categorical", "got": repr(acc.exc or acc.val)[:300]})
+    fails = fails + l2_space(ck, d, state, run, fails)
+    fresh = oracle(state)
+    if fails and not fresh:
+        for f in fails:
+            ck.fail(f"C09|{f[0]}|{kind}|{dimsig(specs[f[2]]) if f[2] is not None else 'space'}",
+                    f"{f[0]} fails on a space built through {kind} although a directly constructed one is fine", {"kind": kind, **state, **case_extra}, f[3])
+    elif fails:
+        report(ck, state, fails)
+
+
+def problem_space_case(ck, d, rng):
+    """HpProblem declarations -> convert_to_skopt_space (what CBO does) -> for a GP surrogate normalize_dimensions
+    (what Optimizer does): numeric ordinals arrive with the identity transform, categoricals label / one-hot"""
+    from deephyper.hpo import HpProblem
+    from deephyper.hpo._problem import convert_to_skopt_space
+    from deephyper.skopt.utils import normalize_dimensions
+
+    p = HpProblem()
+    names = rng.sample(["lr", "units", "act", "opt", "drop", "layers", "k", "b", "a", "z"], rng.choice([1, 2, 3, 5]))
+    decl = []
+    for nm in names:
+        k = rng.choice(["iu", "il", "fu", "fl", "cat", "ord_i", "ord_f", "const", "bool"])
+        if k == "iu":
+            lo = rng.choice([0, 1, -5, 10])
+            v = (lo, lo + rng.choice([1, 3, 9, 1000, 2 ** 30]))
+        elif k == "il":
+            lo = rng.choice([1, 2, 8])
+            v = (lo, lo * rng.choice([4, 100, 2 ** 20]), "log-uniform")
+        elif k == "fu":
+            lo = rng.choice([0.0, -1.0, 0.5])
+            v = (lo, lo + rng.choice([1.0, 0.5, 1e3]))
+        elif k == "fl":
+            v = rng.choice([(1e-5, 1e-1, "log-uniform"), (3e-5, 7e3, "log-uniform"), (1.0, 32.0, "log-uniform"), (1e-10, 1e10, "log-uniform")])
+        elif k == "cat":
+            v = rng.sample(_WORDS, rng.choice([1, 2, 3, 5]))
+        elif k == "ord_i":
+            v = rng.sample([1, 2, 4, 8, 16, 3, 5], rng.choice([1, 2, 3, 4]))
+        elif k == "ord_f":
+            v = rng.sample([0.1, 0.25, 0.5, 1.5, 2.5], rng.choice([1, 2, 3]))
+        elif k == "bool":
+            v = [True, False]
+        else:
+            v = rng.choice([5, 2.5, "fixed"])
+        p.add_hyperparameter(v, nm)
+        decl.append({"name": nm, "value": list(v) if isinstance(v, tuple) else v, "tuple": isinstance(v, tuple)})
+    surrogate = rng.choice(["RF", "ET", "GP", None])
+    sp = convert_to_skopt_space(p.space, surrogate_model=surrogate)
+    how = "convert_to_skopt_space"
+    if surrogate == "GP" and rng.random() < 0.7:
+        sp.dimensions = normalize_dimensions(sp.dimensions)
+        how += "+normalize_dimensions"
+    specs = [spec_of_dim(dm) for dm in sp.dimensions]
+    if any(s["k"] == "cat" and s["tr"] == "identity" and len({cat_type(dict(s, cats=[c])) for c in s["cats"]}) > 1 for s in specs):
+        return
+    X = [[gen_point(rng, s) for s in specs] for _ in range(rng.choice([1, 2, 5, 9]))]
+    run_built_space(ck, d, how, sp, specs, X, {"declarations": decl, "surrogate": surrogate})
+
+
+def shorthand_of(s):
+    """the check_dimension shorthand of a spec with default transformer, or None"""
+    if s["k"] == "cat":
+        c = s["cats"]
+        if isinstance(c[0], str) or isinstance(c[0], bool) or len(c) in (1, 3) or len(c) > 4:
+            if len(c) == 3 and c[2] in ("uniform", "log-uniform"):
+                return None
+            return list(c)
+        return None  # [1, 2] is a range, a 4-list may be read as (low, high, prior, base)
+    t = (s["lo"], s["hi"])
+    if s["prior"] == "log-uniform":
+        t = t + ("log-uniform",) + ((s["base"],) if "base" in s else ())
+    elif "base" not in s and s["prior"] == "uniform":
+        t = t if s.get("_short", True) else t + ("uniform",)
+    return t
+
+
+def shorthand_space_case(ck, d, rng):
+    """Space([...shorthands...]) goes through check_dimension; Space.from_yaml through the class constructors"""
+    import os
+    import tempfile
+
+    import yaml
+    from deephyper.skopt.space import Space
+
+    base = 2 if rng.random() < 0.2 else 10
+    specs = []
+    for _ in range(rng.choice([1, 2, 3, 4])):
+        s = gen_dim(rng, base)
+        s["tr"] = "onehot" if s["k"] == "cat" else "identity"  # the defaults of the shorthand forms
+        specs.append(s)
+    X = [[gen_point(rng, s) for s in specs] for _ in range(rng.choice([1, 3, 6]))]
+    if rng.random() < 0.5:
+        shs = [shorthand_of(dict(s, _short=rng.random() < 0.5)) for s in specs]
+        if any(x is None for x in shs):
+            return
+        out = Out(lambda: Space(shs))
+        how, extra = "check_dimension", {"shorthands": [list(x) if isinstance(x, tuple) else x for x in shs]}
+    else:
+        trs = []
+        doc = []
+        for s in specs:
+            tr = rng.choice(MODELLED_TR[s["k"]]) if not (s["k"] == "cat" and not isinstance(s["cats"][0], (int, float))) else rng.choice(["label", "onehot", "normalize"])
+            if s["k"] == "cat" and isinstance(s["cats"][0], bool) and tr == "identity":
+                tr = "label"
+            trs.append(tr)
+            if s["k"] == "cat":
+                doc.append({"Categorical": {"categories": list(s["cats"]), "transform": tr}})
+            else:
+                body = {"low": s["lo"], "high": s["hi"], "prior": s["prior"], "transform": tr}
+                if "base" in s:
+                    body["base"] = s["base"]
+                doc.append({"Real" if s["k"] == "real" else "Integer": body})
+        specs = [dict(s, tr=t) for s, t in zip(specs, trs)]
+        fd, path = tempfile.mkstemp(suffix=".yaml", prefix="c09_")
+        os.close(fd)
+        try:
+            with open(path, "w") as f:
+                yaml.safe_dump({"Space": doc}, f)
+            out = Out(lambda: Space.from_yaml(path))
+        finally:
+            os.unlink(path)
+        how, extra = "Space.from_yaml", {"yaml": doc}
+    if out.exc is not None:
+        ck.mismatch({"kind": how, **extra}, {"what": how + " raises on a well-formed description", "error": repr(out.exc)[:300]})
+        return
+    run_built_space(ck, d, how, out.val, specs, X, extra)
+
+
 def dim_malformed_cases(rng):
     """per-dimension calls that must raise, and what the API returns for 1-D / 2-D inputs"""
     s = gen_dim(rng, 2 if rng.random() < 0.2 else 10)
@@ -1125,7 +1325,9 @@ def run(ck):
                "categories str/int/float/bool x label/onehot/normalize/identity(numeric)), 1..50 member rows on / next to the "
                "bounds and inside; arbitrary transformed points; malformed per-dimension calls; histories of 1-4 set_transformer "
                "switches (space string / per-dimension list / by type / dimension-level / save-normalize-restore, incl. the "
-               "pass-through 'string' transform) on ONE Space object with queries after every switch; corpus first; "
+               "pass-through 'string' transform) on ONE Space object with queries after every switch; spaces built the other ways "
+               "(HpProblem -> convert_to_skopt_space [-> normalize_dimensions], check_dimension shorthands, Space.from_yaml); "
+               "verified Lean checkers (shape, bounds, round trip) on the real outputs; corpus first; "
                "non-trivial = at least one dimension that is not real/uniform/identity")
     ck.assumptions = [
         "np.log10 / ** are parameters of the model: observed values are passed as tables (L exact lookup, E nearest key with the distance checked)",
@@ -1156,6 +1358,10 @@ def run(ck):
             run_tpoint_case(ck, d, rng)
         for _ in range(ck.pick(350, 3000)):
             run_history_case(ck, d, gen_history_case(rng))
+        for _ in range(ck.pick(120, 1000)):
+            problem_space_case(ck, d, rng)
+        for _ in range(ck.pick(150, 1200)):
+            shorthand_space_case(ck, d, rng)
         for _ in range(ck.pick(300, 3000)):
             item = dim_malformed_cases(rng)
             if item is not None:
